@@ -165,6 +165,40 @@ func (c *Chain) bech(name string) string {
 	return name // verbatim: lets shape cases pass malformed addresses through
 }
 
+// fillerDID: the i-th bulk registry entry (GenesisOpts.Bulk). Valid identifiers that sort BEFORE every DID of the dictionary, so that the
+// dictionary's DIDs lie beyond whatever count-based boundary an iteration may have.
+func fillerDID(i int) string {
+	digits := "123456789"
+	s := ""
+	for k := 0; k < 4; k++ {
+		s = string(digits[i%9]) + s
+		i /= 9
+	}
+	return "did:panacea:1111111111111111111111111111" + s
+}
+
+func fillerDoc(i int) *didtypes.DIDDocumentWithSeq {
+	did := fillerDID(i)
+	vm := &didtypes.VerificationMethod{Id: vmID(did, "v1"), Type: didtypes.ES256K_2019, Controller: did, PublicKeyBase58: didKeys["k9"].B58}
+	return &didtypes.DIDDocumentWithSeq{Document: &didtypes.DIDDocument{Contexts: &didtypes.JSONStringOrStrings{didtypes.ContextDIDV1}, Id: did,
+		VerificationMethods: []*didtypes.VerificationMethod{vm}, Authentications: []didtypes.VerificationRelationship{didtypes.NewVerificationRelationship(vm.Id)}}, Sequence: 0}
+}
+
+// isIntactFiller: d is exactly the i-th filler entry for some i < n
+func isIntactFiller(key string, d *didtypes.DIDDocumentWithSeq, n int) bool {
+	if !strings.HasPrefix(key, "did:panacea:1111111111111111111111111111") || d == nil {
+		return false
+	}
+	for i := 0; i < n; i++ {
+		if fillerDID(i) == key {
+			a, _ := fillerDoc(i).Marshal()
+			b, _ := d.Marshal()
+			return string(a) == string(b)
+		}
+	}
+	return false
+}
+
 func (c *Chain) acctName(bech string) string {
 	if n, ok := c.byBech[bech]; ok {
 		return n
@@ -191,11 +225,15 @@ func concDoc(a M) *didtypes.DIDDocument {
 		return &didtypes.DIDDocument{Id: did} // the bare document a deactivation proof is made over
 	}
 	doc := &didtypes.DIDDocument{Contexts: &didtypes.JSONStringOrStrings{didtypes.ContextDIDV1}, Id: did}
+	own := did // the DID the method ids are filed under: the document's own, or (ex = "xvm", malformed) its twin's
+	if str(a, "ex") == "xvm" {
+		own = xvmOwner(did)
+	}
 	mk := func(e M) *didtypes.VerificationMethod {
 		return &didtypes.VerificationMethod{
-			Id:              vmID(did, str(e, "n")),
+			Id:              vmID(own, str(e, "n")),
 			Type:            conc(keyTypeDict, str(e, "type")),
-			Controller:      did,
+			Controller:      own,
 			PublicKeyBase58: didKeys[str(e, "key")].B58,
 		}
 	}
@@ -209,21 +247,34 @@ func concDoc(a M) *didtypes.DIDDocument {
 		if boolean(e, "ded") {
 			doc.Authentications = append(doc.Authentications, didtypes.NewVerificationRelationshipDedicated(*mk(e)))
 		} else {
-			doc.Authentications = append(doc.Authentications, didtypes.NewVerificationRelationship(vmID(did, str(e, "n"))))
+			doc.Authentications = append(doc.Authentications, didtypes.NewVerificationRelationship(vmID(own, str(e, "n"))))
 		}
 	}
 	as := strs(a, "asrt")
 	sort.Strings(as)
 	for _, n := range as {
-		doc.AssertionMethods = append(doc.AssertionMethods, didtypes.NewVerificationRelationship(vmID(did, n)))
+		doc.AssertionMethods = append(doc.AssertionMethods, didtypes.NewVerificationRelationship(vmID(own, n)))
 	}
-	if str(a, "ex") == "rich" {
+	if str(a, "ex") == "rich" || str(a, "ex") == "rich2" {
 		richExtras(doc, did)
+	}
+	if str(a, "ex") == "rich2" { // the same controller listed twice (a legal list)
+		doc.Controller = &didtypes.JSONStringOrStrings{controllerOf(did), controllerOf(did)}
 	}
 	return doc
 }
 
 // controllerOf: the DID a "rich" document names as its controller (another DID of the dictionary, possibly unregistered)
+// xvmOwner: the DID whose prefix the method ids of a malformed ("xvm") document carry: d1 <-> dc, every other -> d1
+func xvmOwner(did string) string {
+	switch didRev[did] {
+	case "d1":
+		return didDict["dc"]
+	default:
+		return didDict["d1"]
+	}
+}
+
 func controllerOf(did string) string {
 	switch didRev[did] {
 	case "d1":
@@ -255,7 +306,10 @@ func richExtras(doc *didtypes.DIDDocument, did string) {
 }
 
 // isRich: the document carries exactly the extras richExtras adds (compared on the encoded form of a freshly built copy)
-func isRich(doc *didtypes.DIDDocument) bool {
+func isRich(doc *didtypes.DIDDocument) bool  { return isRichN(doc, 1) }
+func isRich2(doc *didtypes.DIDDocument) bool { return isRichN(doc, 2) }
+
+func isRichN(doc *didtypes.DIDDocument, richControllers int) bool {
 	probe := &didtypes.DIDDocument{Id: doc.Id, VerificationMethods: doc.VerificationMethods}
 	richExtras(probe, doc.Id)
 	eq := func(a, b []didtypes.VerificationRelationship) bool {
@@ -274,7 +328,7 @@ func isRich(doc *didtypes.DIDDocument) bool {
 	if doc.Contexts == nil || len(*doc.Contexts) != 2 || (*doc.Contexts)[0] != didtypes.ContextDIDV1 || (*doc.Contexts)[1] != extraCtx {
 		return false
 	}
-	if doc.Controller == nil || len(*doc.Controller) != 1 || (*doc.Controller)[0] != controllerOf(doc.Id) {
+	if doc.Controller == nil || len(*doc.Controller) != richControllers || (*doc.Controller)[0] != controllerOf(doc.Id) || (*doc.Controller)[richControllers-1] != controllerOf(doc.Id) {
 		return false
 	}
 	if !eq(doc.KeyAgreements, probe.KeyAgreements) || !eq(doc.CapabilityInvocations, probe.CapabilityInvocations) || len(doc.CapabilityDelegations) != 0 {
@@ -319,8 +373,12 @@ func absDoc(doc *didtypes.DIDDocument) (M, bool) {
 	if !known {
 		return empty, false
 	}
+	own := doc.Id
+	if len(doc.VerificationMethods) > 0 && strings.HasPrefix(doc.VerificationMethods[0].Id, xvmOwner(doc.Id)+"#") {
+		own = xvmOwner(doc.Id) // a stored document whose methods carry the twin's prefix (only defective code stores one)
+	}
 	name := func(vmid string) string {
-		p := doc.Id + "#"
+		p := own + "#"
 		if !strings.HasPrefix(vmid, p) {
 			ok = false
 			return "?" + vmid
@@ -330,7 +388,7 @@ func absDoc(doc *didtypes.DIDDocument) (M, bool) {
 	am := func(vm *didtypes.VerificationMethod) M {
 		k, kk := didKeyByB58[vm.PublicKeyBase58]
 		t, tk := keyTypeRev[vm.Type]
-		if !kk || !tk || vm.Controller != doc.Id {
+		if !kk || !tk || vm.Controller != own {
 			ok = false
 		}
 		return M{"n": name(vm.Id), "key": k, "type": t}
@@ -360,8 +418,15 @@ func absDoc(doc *didtypes.DIDDocument) (M, bool) {
 	}
 	bare := len(doc.VerificationMethods) == 0 && len(doc.Authentications) == 0 && len(doc.AssertionMethods) == 0 && doc.Contexts == nil
 	out["ex"] = ""
-	if isRich(doc) {
+	if own != doc.Id {
+		out["ex"] = "xvm"
+		if doc.Contexts == nil || len(*doc.Contexts) != 1 || doc.Controller != nil || len(doc.KeyAgreements)+len(doc.CapabilityInvocations)+len(doc.CapabilityDelegations)+len(doc.Services) > 0 {
+			ok = false
+		}
+	} else if isRich(doc) {
 		out["ex"] = "rich"
+	} else if isRich2(doc) {
+		out["ex"] = "rich2"
 	} else if (!bare && (doc.Contexts == nil || len(*doc.Contexts) != 1 || (*doc.Contexts)[0] != didtypes.ContextDIDV1)) || doc.Controller != nil ||
 		len(doc.KeyAgreements)+len(doc.CapabilityInvocations)+len(doc.CapabilityDelegations)+len(doc.Services) > 0 {
 		ok = false
